@@ -15,14 +15,20 @@
 EXTENDS Integers, Sequences, FiniteSets, TLC, Json
 CONSTANTS MaxN,        \* total pooled size bound
           CrossN,      \* literal-definition cross-checks are evaluated for N <= CrossN
-          Configs      \* set of <<exactLimit, tiesLimit>> pairs reachable through SetLimits
+          Configs,     \* set of <<exactLimit, tiesLimit>> pairs reachable through SetLimits
+          StartT       \* initial tie vectors: {<<>>} to build every pool up to MaxN, or preset larger pools (then MaxN = 0)
 VARIABLES T, n1, exactLimit, tiesLimit
 vars == <<T, n1, exactLimit, tiesLimit>>
 
 RECURSIVE SumSeq(_)
 SumSeq(s) == IF s = <<>> THEN 0 ELSE Head(s) + SumSeq(Tail(s))
-RECURSIVE Ch(_,_)
-Ch(n, k) == IF k < 0 \/ k > n THEN 0 ELSE IF k = 0 THEN 1 ELSE (Ch(n, k-1) * (n - k + 1)) \div k
+\* binomial coefficients from Pascal's triangle (a constant table, evaluated once): every entry up to C(33,16) fits a TLC
+\* integer, which the multiplicative formula's intermediate products do not
+RECURSIVE PRow(_)
+PRow(n) == IF n = 0 THEN <<1>> ELSE LET p == PRow(n - 1) IN
+           TLCEval([i \in 1..(n + 1) |-> (IF i = 1 THEN 0 ELSE p[i - 1]) + (IF i = n + 1 THEN 0 ELSE p[i])])
+PTab == TLCEval([n \in 0..33 |-> PRow(n)])
+Ch(n, k) == IF k < 0 \/ k > n THEN 0 ELSE PTab[n][k + 1]
 Min2(a, b) == IF a < b THEN a ELSE b
 Abs(a) == IF a < 0 THEN 0 - a ELSE a
 
@@ -32,7 +38,7 @@ Allocs(t, n) == IF t = <<>> THEN (IF n = 0 THEN << <<>> >> ELSE <<>>)
                 ELSE LET RECURSIVE Over(_)
                          Over(a) == IF a > Min2(Head(t), n) THEN <<>>
                                     ELSE LET rest == Allocs(Tail(t), n - a)
-                                         IN [i \in 1..Len(rest) |-> <<a>> \o rest[i]] \o Over(a + 1)
+                                         IN TLCEval([i \in 1..Len(rest) |-> <<a>> \o rest[i]]) \o Over(a + 1)
                      IN Over(0)
 \* 2U of an allocation: each sample-1 member at rank k beats the sample-2 members below (2 each) and ties those at k (1 each)
 RECURSIVE TwoUAcc(_,_,_)
@@ -67,13 +73,17 @@ AllOnes(t) == \A k \in 1..Len(t) : t[k] = 1
 \* ---- cumulative tails and p-value numerators over C(N, n1) ----
 RECURSIVE Prefix(_,_)
 Prefix(c, i) == IF i = 0 THEN 0 ELSE c[i] + Prefix(c, i - 1)
-LEvec(c) == [i \in 1..Len(c) |-> Prefix(c, i)]
-GEvec(c) == LET tot == Prefix(c, Len(c)) IN [i \in 1..Len(c) |-> tot - Prefix(c, i - 1)]
+\* running sums built once as an explicit sequence (a lazily evaluated [i |-> Prefix(c, i)] costs a recursion per access)
+RECURSIVE RunSum(_,_,_,_)
+RunSum(c, i, acc, out) == IF i > Len(c) THEN out ELSE RunSum(c, i + 1, acc + c[i], Append(out, acc + c[i]))
+LEvec(c) == RunSum(c, 1, 0, <<>>)
+GEvec(c) == LET le == LEvec(c)  tot == IF c = <<>> THEN 0 ELSE le[Len(c)] IN
+            TLCEval([i \in 1..Len(c) |-> tot - (IF i = 1 THEN 0 ELSE le[i - 1])])
 \* two-sided numerator: min(C, 2 min(LE, GE))
-PDvec(c, den) == LET le == LEvec(c) ge == GEvec(c) IN [i \in 1..Len(c) |-> Min2(den, 2 * Min2(le[i], ge[i]))]
+PDvec(c, den) == LET le == LEvec(c) ge == GEvec(c) IN TLCEval([i \in 1..Len(c) |-> Min2(den, 2 * Min2(le[i], ge[i]))])
 \* the value the pinned implementation returns for LocationDiffers (known finding): 2*CDF(min(U, n1 n2 - U)), 1 if U = n1 n2 / 2
 KnownWrongDiffers(c) == LET le == LEvec(c) top == Len(c) - 1 IN
-   [i \in 1..Len(c) |-> IF 2 * (i - 1) = top THEN Prefix(c, Len(c)) ELSE 2 * le[Min2(i, top - (i - 1) + 1)]]
+   TLCEval([i \in 1..Len(c) |-> IF 2 * (i - 1) = top THEN le[Len(c)] ELSE 2 * le[Min2(i, top - (i - 1) + 1)]])
 
 HasTies(t) == \E k \in 1..Len(t) : t[k] > 1
 Method(t, n, e, tl) == LET m == SumSeq(t) - n IN
@@ -88,7 +98,7 @@ VarNum(t, n) == LET N == SumSeq(t) IN n * (N - n) * ((N + 1) * N * (N - 1) - Tie
 VarDen(t) == LET N == SumSeq(t) IN 12 * N * (N - 1)
 
 -----------------------------------------------------------------------------
-Init == T = <<>> /\ n1 = -1 /\ \E c \in Configs : exactLimit = c[1] /\ tiesLimit = c[2]
+Init == T \in StartT /\ n1 = -1 /\ \E c \in Configs : exactLimit = c[1] /\ tiesLimit = c[2]
 \* the pool is built one rank at a time, then the split is chosen; SetLimits may happen at any time
 AddRank(t) == n1 = -1 /\ SumSeq(T) + t <= MaxN /\ T' = Append(T, t) /\ UNCHANGED <<n1, exactLimit, tiesLimit>>
 ChooseSplit(k) == n1 = -1 /\ Len(T) >= 1 /\ n1' = k /\ UNCHANGED <<T, exactLimit, tiesLimit>>
@@ -127,5 +137,14 @@ Emit == n1 >= 0 =>
                       kw |-> KnownWrongDiffers(c), varn |-> VarNum(T, n1), vard |-> VarDen(T),
                       al |-> AllocRecs(T, n1)]))
 ConfigsDefault == {<<50, 25>>}
+StartEmpty == {<<>>}
+\* tied pools of 20..32 values (few distinct values, so that the allocation generating function stays small; C(N, n1) and
+\* twice its value fit TLC's integers up to N = 32); every split 0..N of each is explored
+MidPoolsQuick == {<<5, 5, 5, 5>>, <<10, 11>>, <<1, 20, 2>>, <<12, 13>>, <<6, 7, 12>>, <<9, 1, 1, 15>>, <<16, 16>>}
+MidPoolsThorough == MidPoolsQuick \cup {<<3, 4, 5, 6, 7>>, <<7, 7, 8>>, <<6, 6, 6, 6>>, <<13, 14>>, <<10, 10, 10>>, <<2, 19>>, <<21, 1>>, <<1, 1, 22>>, <<8, 8, 8, 8>>,
+                                        <<4, 4, 4, 4, 4, 4>>, <<11, 1, 11>>, <<2, 3, 2, 3, 2, 3, 2, 3, 2>>, <<15, 2, 15>>}
+ConfigsWide == {<<1000, 1000>>}
 ConfigsFour == {<<50, 25>>, <<0, 0>>, <<3, 2>>, <<1000, 1000>>}
+\* the two limits are independent settings: also the ties limit above the no-ties limit
+ConfigsSix == ConfigsFour \cup {<<2, 5>>, <<0, 1000>>}
 =============================================================================
